@@ -152,7 +152,7 @@ wait:
 	}
 	rawRes, rerr := os.ReadFile(resPath)
 	if rerr != nil {
-		if v := fatalCrash(stderr.String()); v != nil {
+		if v := fatalCrash(stderr.String(), b.instr.UnsafeFiles); v != nil {
 			// the Go runtime itself stopped the process inside the code under test
 			// (invalid pointer arithmetic, concurrent map access, corrupted heap):
 			// no result file can exist, the crash is the outcome
@@ -445,7 +445,7 @@ func (b *build) runMany(dir string, n, par int, gen func(i int) *scn.Scenario, d
 // not trouble of the harness: it is returned as a violation (and, like every
 // violation, only reported if the replay shows it again). A fatal error with no
 // repository frame in the crashing goroutine stays infrastructure trouble.
-func fatalCrash(stderr string) *scn.Violation {
+func fatalCrash(stderr string, unsafeFiles []string) *scn.Violation {
 	k := strings.Index(stderr, "fatal error: ")
 	if k < 0 {
 		return nil
@@ -454,6 +454,19 @@ func fatalCrash(stderr string) *scn.Violation {
 	msg := rest
 	if i := strings.Index(msg, "\n"); i >= 0 {
 		msg = msg[:i]
+	}
+	// The collector or allocator found the heap corrupted. That is noticed on
+	// one of the runtime's own goroutines, so no frame says who did it; but
+	// memory-safe Go cannot do it, the simulator converts a pointer only to hand
+	// a byte to a system call, and the tree under test contains files that use
+	// unsafe / slice headers (the pinned tree has none): theirs is the corruption.
+	if len(unsafeFiles) > 0 {
+		for _, pat := range []string{"found bad pointer in Go heap", "found pointer to free object", "invalid pointer found on stack", "bad pointer in frame", "unexpected signal during runtime execution", "sweep increased allocation count", "found bad pointer", "workbuf is empty", "markroot", "bad sweepgen"} {
+			if strings.Contains(msg, pat) || (pat == "found bad pointer in Go heap" && strings.Contains(stderr, pat)) {
+				return &scn.Violation{Oracle: "O0-no-runtime-crash", Sig: "fatal:heap-corruption",
+					Detail: "the Go runtime stopped the whole process with [" + msg + "]: the heap is corrupted. The tree under test uses unsafe pointer conversions or slice headers in " + strings.Join(unsafeFiles, ", ") + " (the unchanged tree does so nowhere); an object was freed or overwritten while still in use."}
+			}
+		}
 	}
 	// the first goroutine listed is the one that crashed
 	g := rest
